@@ -459,7 +459,7 @@ func RunKeybase(r *sim.Rand, nops int, lazy bool, rep Reporter) {
 			if r.Chance(30) {
 				np = e.pass
 			}
-			arm, err := kb.ExportPrivKeyEncryptedArmor(ad, e.pass, np, []string{"hint", ""}[r.Intn(2)])
+			arm, err := kb.ExportPrivKeyEncryptedArmor(ad, e.pass, np, genHint(r))
 			if err != nil {
 				rep.Violate("C19", "kb-export-error", fmt.Sprintf("export with the right passphrase failed: %v", err))
 				continue
@@ -478,7 +478,12 @@ func RunKeybase(r *sim.Rand, nops int, lazy bool, rep Reporter) {
 					rep.Count("c19.kb.wrong_pass", 1)
 				}
 			}
-			kp, err := tgt.ImportPrivKey(arm, np, "second")
+			ip := "second" // the passphrase protecting the key in the target keybase
+			if r.Bool() {
+				ip = passes[r.Intn(len(passes))]
+			}
+			tgt = keys.NewInMemory()
+			kp, err := tgt.ImportPrivKey(arm, np, ip)
 			if err != nil {
 				rep.Violate("C19", "kb-import-of-export-fails", fmt.Sprintf("importing the export under the right passphrase failed: %v", err))
 				continue
@@ -487,9 +492,15 @@ func RunKeybase(r *sim.Rand, nops int, lazy bool, rep Reporter) {
 			if hexOf(kp.GetAddress()) != a {
 				rep.Violate("C19", "kb-roundtrip-address", fmt.Sprintf("export+import changed the address: %s vs %s", hexOf(kp.GetAddress()), a))
 			}
-			pk2, err := tgt.ExportPrivateKeyObject(kp.GetAddress(), "second")
+			pk2, err := tgt.ExportPrivateKeyObject(kp.GetAddress(), ip)
 			if err != nil || !bytes.Equal(pk2.RawBytes(), e.priv) {
-				rep.Violate("C19", "kb-roundtrip-key", fmt.Sprintf("export+import did not yield the same private key (err %v)", err))
+				rep.Violate("C19", "kb-roundtrip-key", fmt.Sprintf("export+import did not yield the same private key under the passphrase given to the import (%d bytes; armor passphrase %d bytes): err %v", len(ip), len(np), err))
+			}
+			if !kdfEquivalent(ip, np) {
+				// the armor's transport passphrase is not the key's passphrase in the target keybase
+				if _, err := tgt.ExportPrivateKeyObject(kp.GetAddress(), np); err == nil {
+					rep.Violate("C19", "kb-import-keeps-armor-passphrase", fmt.Sprintf("after ImportPrivKey(armor, %d-byte armor passphrase, %d-byte new passphrase) the armor passphrase opens the key", len(np), len(ip)))
+				}
 			}
 		case 5: // update
 			a, e := pick()
@@ -665,7 +676,7 @@ func CheckArmor(r *sim.Rand, rep Reporter) {
 	rep.Count("c19.armor.cases", 1)
 	rep.Count("c19.armor."+kind, 1)
 	var arm string
-	if p := catch(func() { arm, err = mintkey.EncryptArmorPrivKey(pk, pass, []string{"", "hint"}[r.Intn(2)]) }); p != nil || err != nil {
+	if p := catch(func() { arm, err = mintkey.EncryptArmorPrivKey(pk, pass, genHint(r)) }); p != nil || err != nil {
 		rep.Violate("C19", "armor-encrypt-error/"+kind, fmt.Sprintf("EncryptArmorPrivKey failed: %v %v", p, err))
 		return
 	}
@@ -683,5 +694,28 @@ func CheckArmor(r *sim.Rand, rep Reporter) {
 		if p := catch(func() { k2, err = mintkey.UnarmorDecryptPrivKey(arm, wp) }); p == nil && err == nil {
 			rep.Violate("C19", "armor-wrong-pass-yields-key/"+kind, fmt.Sprintf("a wrong passphrase (%d bytes, right one %d bytes) opened the armor and returned a %T", len(wp), len(pass), k2))
 		}
+	}
+}
+
+
+// genHint: passphrase hints are free text: control characters, quotes, backslashes, non-BMP runes, invalid UTF-8.
+func genHint(r *sim.Rand) string {
+	switch r.Intn(8) {
+	case 0:
+		return ""
+	case 1:
+		return "hint"
+	case 2:
+		return "bell\a tab\t vt\v us\x1f del\x7f"
+	case 3:
+		return "quote\" backslash\\ slash/ <html>&amp;"
+	case 4:
+		return "emoji \U0001F511 \U0010FFFF nul\x00"
+	case 5:
+		return "bad utf8 \xff\xfe end"
+	case 6:
+		return string(r.Bytes(1 + r.Intn(40)))
+	default:
+		return "line1\nline2\r\n\u2028"
 	}
 }
